@@ -19,9 +19,20 @@ NONASCII = r"[\s\S]*[^\x00-\x7f][\s\S]*"
 # ------------------------------------------------------------------ regions of the 'accept' families
 ACCEPT_REGIONS = {
     "ODATA_IDENTIFIER": [
-        rx.Region("ident-keyword-prefix", r"(?:true|false|null|any|all)[\s\S]+",
-                  "an identifier that starts with one of the keywords true/false/null/any/all is split into the keyword "
-                  "token and a rest"),
+        rx.Region("ident-keyword-prefix", r"(?:true|false|null|any|all)[A-Z0-9_][\s\S]*",
+                  "an identifier that starts with one of the keywords true/false/null/any/all followed by a letter, digit or "
+                  "underscore is split into the keyword token and a rest (nullable -> NULL + able)"),
+        rx.Region("ident-keyword-namespace", r"(?:true|false|null|any|all)\.[\s\S]*",
+                  "a qualified name whose first namespace part is one of the keywords true/false/null/any/all is split at "
+                  "the dot (all.x -> ALL + error)"),
+    ],
+    "ODATA_IDENTIFIER[unicode]": [
+        rx.Region("ident-keyword-prefix", r"(?:true|false|null|any|all)[^.][\s\S]*", "keyword prefix (see above)"),
+        rx.Region("ident-keyword-namespace", r"(?:true|false|null|any|all)\.[\s\S]*", "keyword namespace (see above)"),
+        rx.Region("ident-nonascii-leading-letter", r"(?:[\s\S]*\.)?[^\x00-\x7f][\s\S]*",
+                  "a name / namespace part that starts with a non-ASCII letter (ABNF: Unicode categories L, Nl) is not an identifier token"),
+        rx.Region("ident-nonascii-mark-or-digit", NONASCII,
+                  "a non-ASCII character that the ABNF allows inside an identifier (categories L, Nl, Nd, Mn, Mc, Pc, Cf) ends the token"),
     ],
     "DATETIME": [
         rx.Region("year-below-1000", r"0[\s\S]*", "a date / date-time literal whose year is 0001..0999 is not recognised"),
@@ -53,11 +64,26 @@ OVER_REGIONS = {
 }
 
 
+def unicode_identifier_ref(alphabet_chars) -> str:
+    """odataIdentifier including the ABNF's Unicode clause, over the non-ASCII members of the working alphabet:
+    leading character: categories L*, Nl; further characters: L*, Nl, Nd, Mn, Mc, Pc, Cf (unicodedata, not the repo)."""
+    import unicodedata
+    lead = "".join(ch for ch in alphabet_chars if ord(ch) > 127 and (unicodedata.category(ch)[0] == "L" or unicodedata.category(ch) == "Nl"))
+    cont = "".join(ch for ch in alphabet_chars if ord(ch) > 127 and (unicodedata.category(ch)[0] == "L"
+                                                                    or unicodedata.category(ch) in ("Nl", "Nd", "Mn", "Mc", "Pc", "Cf")))
+    part = f"[A-Z_{lead}][A-Z0-9_{cont}]{{0,127}}"
+    return f"{part}(?:\\.{part})*"
+
+
+UNICODE_EXTRAS = rx.PREFERRED_EXTRAS
+
+
 def reference_patterns() -> List[tuple]:
     pats = [(p, rx.REF_FLAGS) for (_n, _k, p, _d, _b) in ls.accept_shapes()]
     pats += [(k["ref"], rx.REF_FLAGS) for k in ls.KINDS.values()]
     for rs in list(ACCEPT_REGIONS.values()) + list(OVER_REGIONS.values()):
         pats += [(r.pattern, r.flags) for r in rs]
+    pats.append((unicode_identifier_ref([chr(i) for i in range(128)] + list(UNICODE_EXTRAS)), rx.REF_FLAGS))
     return pats
 
 
@@ -72,6 +98,10 @@ def lexer_obligations(sess: rx.Session, tier: str) -> List[rx.Obligation]:
             ref = ref.replace(ls.YEAR, ls.YEAR_1000, 1)
         obs.append(rx.ob_accept(sess, f"accept:{suffix}", "accept", B[bound], kind, ref, delims,
                                 ACCEPT_REGIONS.get(kind, []), not_in))
+    # identifiers with the ABNF's Unicode letters / digits / marks (at least one non-ASCII character), own regions
+    obs.append(rx.ob_accept(sess, "accept:IDENTIFIER[unicode]", "accept", B["str"], "ODATA_IDENTIFIER",
+                            unicode_identifier_ref(sess.alphabet.chars), ls.DELIM_IDENT, ACCEPT_REGIONS["ODATA_IDENTIFIER[unicode]"],
+                            [ls.RESERVED, ls.IDENTIFIER]))
     y0 = "0[0-9]{3}"
     obs.append(rx.ob_accept(sess, "accept:DATE[year<1000]", "accept", B["long"], "DATE",
                             ls.DATE.replace(ls.YEAR, "(?:000[1-9]|00[1-9][0-9]|0[1-9][0-9]{2})", 1), ls.DELIM_LITERAL,
@@ -284,8 +314,8 @@ def v_duration_field(sign: int, field: int, iv: int, others: int) -> bool:
 
 
 def v_duration_product(sign: int, mask: int, i0: int, i1: int, i2: int, i3: int, i4: int, i5: int) -> bool:
-    """thorough tier: full product of three values per present field."""
-    pool = ("0", "3", "12")
+    """thorough tier: full product of two values per present field."""
+    pool = ("0", "12")
     idx = (i0, i1, i2, i3, i4, i5)
     return _duration_ok(sign, [pool[idx[i]] if (mask >> i) & 1 else None for i in range(6)], 0)
 
@@ -420,10 +450,10 @@ def value_items(tier: str) -> List[Item]:
     if not quick:
         for sign in range(3):
             for mask in range(1, 64):
-                pins = " and ".join(f"0 <= x{i} <= 2" + ("" if (mask >> i) & 1 else f" and x{i} == 0") for i in range(6))
+                pins = " and ".join(f"0 <= x{i} <= 1" + ("" if (mask >> i) & 1 else f" and x{i} == 0") for i in range(6))
                 it.append(Item(f"duration_product_s{sign}_m{mask}", ", ".join(f"x{i}: int" for i in range(6)), pins,
                                f"v_duration_product({sign}, {mask}, x0, x1, x2, x3, x4, x5)", family="value:duration",
-                               describe=f"duration: mask {mask:06b}, full product of the values 0/3/12 per present field"))
+                               describe=f"duration: mask {mask:06b}, full product of the values 0/12 per present field"))
     years = (1, 2, 3) if quick else range(len(YEARS))
     for iy in years:
         for half in range(2):
@@ -465,6 +495,11 @@ def reachability(run: Run, header: str, items: List[Item], timeout: float = 20.0
         twins.append(chx.make_reach_twin(fn_src, itm.name))
     with chx.HarnessModule(header + "\n" + "\n".join(twins)) as hm:
         res = hm.run([itm.name + "__reach" for itm in items], per_condition_timeout=timeout)
+        # chx.HarnessModule.run can misreport a worker that delivered its result and exited between two polls
+        # ("RUNNER_ERR worker exited with 0"); such twins are simply analysed again
+        again = [n for n, r in res.items() if r.state == "RUNNER_ERR"]
+        if again:
+            res.update(hm.run(again, per_condition_timeout=timeout))
     bad = [n for n, r in res.items() if r.state != chx.POST_FAIL]
     run.extra.setdefault("reachability_twins", {})[items[0].family.split(":")[0] if items else "-"] = {
         "twins": len(items), "reachable": len(items) - len(bad)}
@@ -533,6 +568,16 @@ class SubRun:
             run.sample(smp)
 
 
+MUTANTS = [
+    rx.Mutant("swap DATE and DATETIME rules", rx.edit_swap("DATE", "DATETIME"), ["accept:DATETIME[sec"]),
+    rx.Mutant("swap INTEGER and DECIMAL rules", rx.edit_swap("INTEGER", "DECIMAL"), ["accept:DECIMAL"]),
+    rx.Mutant("drop re.IGNORECASE", lambda sp: rx.respec(sp, flags=sp.flags & ~re.I), ["accept:BOOLEAN"]),
+    rx.Mutant("fraction narrowed to 2 digits", rx.edit_replace(r"\d{1,12}", r"\d{1,2}"), ["accept:TIME"]),
+    rx.Mutant("eq with literal spaces", rx.edit_replace(r"\s+eq\s+", " eq "), ["next-op:eq"]),
+    rx.Mutant("identifier rule before the keyword rules", rx.edit_swap("ODATA_IDENTIFIER", "BOOLEAN"), ["accept:BOOLEAN"]),
+]
+
+
 def main() -> int:
     run = Run(PID, "model_checking")
     tier = run.tier
@@ -549,8 +594,48 @@ def main() -> int:
     sess.fill(run)
     run.bounds = {"text_length_N": dict(ls.BOUNDS), "per_kind_bound_class": {k: v["bound"] for k, v in ls.KINDS.items()},
                   "alphabet": f"{len(sess.alphabet)} characters (see rexcirc.alphabet)"}
-    sess.validate(run, str(REPO / "tests"), 400 if tier == "quick" else 4000)
+    run.bounds.update({
+        "duration_component_digits(accept direction)": 2 if tier == "quick" else 3,
+        "delimiters_after_a_literal": "end of text, SP, HTAB, LF, CR, ')' , ','; identifiers additionally '/', '(', ':', '='",
+        "operator_step": "white-space runs of 1..2 characters from {SP, HTAB} on each side (C19 covers every \\s character, runs 1..3)",
+        "engine_b": {"string_contents": "<= 4 (quick) / 5 (thorough) arbitrary code points",
+                     "integer_digits": "<= 2 (quick) / 3 (thorough), all signs, leading zeros",
+                     "identifier_parts": "<= 3 parts of <= 2 arbitrary non-dot characters",
+                     "other_kinds": "symbolic indexes into the value pools listed in the obligation descriptions"}})
+    run.outside += [
+        "texts longer than the per-kind bound N (rule matches longer than N characters)",
+        "NaN / INF / -INF (nanInfinity of decimalValue): not part of 'decimal/exponent number' of the statement",
+        "negative years, year 0000 and years with more than four digits (no Python calendar value exists)",
+        "stand-alone time of day without seconds (hh:mm): the statement says hh:mm:ss[.f]",
+        "durations without the 'duration' prefix (lexically a string), duration components longer than the digit bound in the "
+        "accept direction", "geography collections nested deeper than one level", "identifiers longer than N - 1 characters "
+        "(the 128-character limit is beyond the bound)",
+        "float / calendar py_val are evaluated concretely per CrossHair path (CrossHair realises at float(), fromisoformat, isoparse)",
+    ]
+    run.assumptions += [
+        "reference languages are my transcription of the OData 4.01 ABNF (verif/lexspec.py), extended exactly where the property "
+        "statement is wider (optional date-time offset, Y/M duration components) - see the comments there",
+        "that a lexeme of a given shape reaches exactly the token action checked by Engine B is Engine A's 'accept' result; the "
+        "two engines compose per kind",
+        "'overaccept' obligations (live token accepts a string outside the reference language, followed by a delimiter) are "
+        "informational: C06 quantifies over well-formed literals only; they are listed in coverage.notes, never as violations",
+        "fractions of a second beyond microseconds are cut to Python's resolution (expected values use truncation)",
+        "Engine B: finite choices are symbolic ints enumerated by CrossHair path by path (finite-domain symbolic execution: the solver "
+        "certifies that the case split is exhaustive); only string contents are genuinely unbounded symbolic values",
+    ]
+    try:
+        sess.validate(run, str(REPO / "tests"), 400 if tier == "quick" else 4000)
+    except rx.NotEncodable as e:
+        print(f"[{PID}] the current lexer cannot be encoded: {e}", flush=True)
+        run.inconclusive("encode-lexer", "encode", f"not encodable: {e}")
+        values.join()
+        run.finish()
+        return 2
     obs = lexer_obligations(sess, tier)
     sess.drive(obs, timeout=60 if tier == "quick" else 300, progress=progress)
+    if tier == "thorough" or os.environ.get("VERIF_SELFTEST"):
+        rx.selftest(run, sess.spec, MUTANTS, sorted(set(ls.BOUNDS.values())), reference_patterns(),
+                    lambda s2: lexer_obligations(s2, "thorough"), timeout=120, progress=progress)
     values.join()
+    rx.attach_results(run)
     return run.finish()
